@@ -50,7 +50,9 @@ impl InlineParser {
 
         if state.level < state.md.max_nesting {
             for rule in self.ruler.iter() {
+                state.level += 1;
                 ok = rule(state, true);
+                state.level -= 1;
                 if ok.is_some() {
                     break;
                 }
@@ -68,6 +70,8 @@ impl InlineParser {
             //       validation mode)
             //
             state.pos = state.pos_max;
+            state.cache.insert(pos, state.pos);
+            return;
         }
 
         if let Some(len) = ok {
